@@ -265,6 +265,27 @@ def gen_random(rng, fam):
     return lines, ("none")
 
 
+def gen_regfail(rng):
+    """registrations that fail for lack of descriptors (the k-th eventfd call gets EMFILE) before, between and after successful ones:
+    a failed registration must change nothing for the objects that are registered or get registered later"""
+    nfail = rng.choice([1, 2, 2, 3])
+    first_ok = rng.choice([0, 1, 1, 2])            # successful registrations before the failures
+    cfg = [f"seed={rng.randrange(1, 10**6)}", f"stay={rng.choice([20, 55, 80])}", "{T}"]
+    # every registration makes one eventfd-family call that reaches the kernel in the eventfd transports
+    for k in range(nfail):
+        cfg.append(f"eventfd-emfile={first_ok + k + 1}")
+    lines = ["cfg " + " ".join(cfg), rng.choice(EXCLUDES) or "exclude", "thread 0", "obj raw r1", "obj raw r2", "obj raw r3", "obj timer t0"]
+    regs = [f"rawreg r{i + 1} ; rawflags r{i + 1}" for i in range(first_ok)]
+    victim = first_ok + 1
+    regs += [f"rawreg r{victim}"] * nfail + [f"rawreg r{victim} ; rawflags r{victim}"]
+    posts = [f"rawpost r{i + 1}" for i in range(victim)]
+    lines.append("do " + " ; ".join(regs + posts + ["trel t0 1000"]))
+    lines.append("on t0 1 : " + " ; ".join(posts))
+    lines.append("main")
+    lines += ["thread 1", "do yield ; " + " ; yield ; ".join(posts), "idle 0 : clk 2000"]
+    return lines, "none"
+
+
 def gen_pingpong(rng):
     """at most one post in flight per object at any time: no coalescing is possible, so the callback sequence must
     be IDENTICAL in the three transports and under every poll method"""
@@ -284,17 +305,17 @@ def gen_pingpong(rng):
     return lines, "exact"
 
 
-FAMILIES = ["threads", "signal", "mix", "burst", "pingpong"]
+FAMILIES = ["threads", "signal", "mix", "burst", "pingpong", "regfail"]
 
 
 def gen_cases(tier, seed, search=False):
-    per = {"threads": 40, "signal": 40, "mix": 40, "burst": 10, "pingpong": 12} if tier == "quick" else \
-          {"threads": 700, "signal": 700, "mix": 700, "burst": 120, "pingpong": 80}
+    per = {"threads": 40, "signal": 40, "mix": 40, "burst": 10, "pingpong": 12, "regfail": 16} if tier == "quick" else \
+          {"threads": 700, "signal": 700, "mix": 700, "burst": 120, "pingpong": 80, "regfail": 120}
     for fam in FAMILIES:
         for i in range(per[fam]):
             s = (seed + (7 if search else 0)) * 100003 + (50000 if search else 0) + i * 5 + FAMILIES.index(fam)
             rng = random.Random(s)
-            lines, cmp_mode = gen_pingpong(rng) if fam == "pingpong" else gen_random(rng, fam)
+            lines, cmp_mode = gen_pingpong(rng) if fam == "pingpong" else gen_regfail(rng) if fam == "regfail" else gen_random(rng, fam)
             yield (f"{fam}-{s}", fam, lines, cmp_mode)
     if not search:
         # systematic schedule enumeration (vlib/sched.py) on a few small multi-thread scenarios; the schedules are found on the
@@ -401,7 +422,7 @@ def nontrivial(r):
 
 def run(tier, seed, proof):
     res = common.Result()
-    res.rule = ("generated multi-thread scenarios (families threads / signal / mix / burst / pingpong, see vlib/c09.py) on the real library "
+    res.rule = ("generated multi-thread scenarios (families threads / signal / mix / burst / pingpong / regfail, see vlib/c09.py) on the real library "
                 "under the deterministic scheduler, each in the three transports (eventfd2, old eventfd, pipe fallback) and rotating over "
                 "the four poll methods: 2-3 threads, 1-3 raw events, posts from the owner, other threads, timer handlers, the object's own "
                 "handler, scenario-defined signal handlers delivered into any thread (also into the owner while it is inside its handler or "
@@ -422,7 +443,7 @@ def run(tier, seed, proof):
         "between arbitrary instructions and async-signal-safety of write(2) are outside the model",
         "a forked child is represented by a byte copy of the object plus a dup() of its write descriptor used from a harness thread "
         "(same open file description, as after fork); a real second process is not created",
-        "registration failure for lack of descriptors (EMFILE/ENFILE) is not modelled; pipe EOF (all writers closed) cannot occur while "
+        "a registration failing for lack of descriptors (EMFILE on the k-th eventfd call, family regfail) is a no-op of the model; pipe EOF (all writers closed) cannot occur while "
         "the object holds its own write end",
         "the in-handler of the raw event's iv_fd is routed through a logging trampoline (harness/mt_raw.c); the library code is unmodified",
     ]
